@@ -3,7 +3,7 @@ CONSTANTS
   Users = {"u1"}
   Flags = {"R", "F"}
   FlagSets = {{"R"}, {"F"}, {"R", "F"}}
-  MaxCalls = 4
+  MaxCalls = 3
   MaxFaults = 1
   MaxCloses = 1
   Fifo = TRUE
